@@ -92,6 +92,22 @@ func TestC11History(t *testing.T) {
 			step += rapid.IntRange(0, total/2+4).Draw(t, "gap")
 			c.Client = append(c.Client, lab.ClientAction{Kind: kinds[lab.Uniform(t, "call", len(kinds))], AtStep: step})
 		}
+		if lab.Chance(t, "failed-recovery-restart", 20) && len(c.Sources) > 0 && c.Sources[0].N > 0 {
+			// a transient source failure, then the recovery restart cannot announce itself as
+			// running (its status write fails), then somebody waits for the pipeline
+			c.Sources[0].ReadFaultAfter = lab.Uniform(t, "rfat", c.Sources[0].N)
+			c.Sources[0].ReadFaultKind, c.Sources[0].ReadFaultInst, c.Sources[0].ReadFaultUpTo = "plain", 1, 0
+			if c.Recovery.MaxRetries == 0 {
+				c.Recovery.MaxRetries = 1
+			}
+			c.StatusFailAt = []int{2} // Running, Recovering, Running
+			c.Client = nil
+			if rapid.Bool().Draw(t, "early-wait") {
+				c.Client = append(c.Client, lab.ClientAction{Kind: "wait", AtStep: rapid.IntRange(0, 12).Draw(t, "waitat")})
+			}
+		}
+		// a waiter that arrives after everything is over
+		c.WaitAtEnd = lab.Chance(t, "wait-at-end", 60)
 		if c.Engine == "v1" && st.IsKnown("C11/two-live-runs/v1/start-during-recovery") {
 			// known finding: a user Start during the default engine's recovery back-off races the
 			// recovery's own restart; keep the search going behind it (the start is held back while
